@@ -23,3 +23,4 @@ import TLX.Props.Translated.Decrypt
 import TLX.Props.Translated.QuicTls
 import TLX.Props.Translated.QuicSess2
 import TLX.Props.Translated.Main2
+import TLX.Props.Translated.Keylog
